@@ -223,6 +223,10 @@ def realign_gaf(gaf, graph, fasta, output, cores=1):
 
             for p in processes:
                 p.join()
+            # a process can still die after it delivered all of its output
+            if not all_exited(processes):
+                logger.error("One of the processes had a none-zero exit code")
+                sys.exit(1)
             queue_len = len(p_queue.queue)
             for _ in range(queue_len):
                 output.write(p_queue.get().seq)
@@ -268,6 +272,10 @@ def realign_gaf(gaf, graph, fasta, output, cores=1):
                 # output.write(out_string_obj)
         for p in processes:
             p.join()
+        # a process can still die after it delivered all of its output
+        if not all_exited(processes):
+            logger.error("One of the processes had a none-zero exit code")
+            sys.exit(1)
         queue_len = len(p_queue.queue)
         for _ in range(queue_len):
             output.write(p_queue.get().seq)
